@@ -42,6 +42,10 @@ def validateStep (tbl : AddrTable) : List String → Option String
   | "vb.pnft" :: rest => do
       let m ← parsePnftV rest
       pure (vbAns (pnftValidateBasic tbl.dec m) (pnftSigners tbl.dec m))
+  | ["mon.c18.admit", t] => do
+      let t ← Bytes.ofHex t
+      -- admitted names round-trip by `C18.string_roundtrip_admitted` + `C16.admitted_topic_has_no_slash`
+      pure (if validateTopicName t = .ok () then "pass" else "rejected")
   | "vb.did" :: rest => do
       let m ← didParseMsg rest
       pure (vbAns (Did.validateBasic tbl.dec m) (didSigners tbl.dec m))
